@@ -27,12 +27,13 @@ unsigned long vp_addr(void const* p);
 void* vp_buf(unsigned long n);
 void vp_buf_free(void* p);
 int vp_new_live(void);
-int vp_param(int k);   // concrete shape parameter k of the query
+int vp_param(int k);
+void vp_fill_n(void* p, unsigned long n);   // concrete shape parameter k of the query
 }
 // symbolic int in [lo,hi]; one nondet call per statement so that evaluation order is fixed
 static inline int vp_range(int lo, int hi) { int v = vp_nondet_int(); vp_assume(v >= lo && v <= hi); return v; }
 // fill n bytes with symbolic data
-static inline void vp_fill(void* p, unsigned long n) { unsigned char* b = (unsigned char*)p; for (unsigned long i = 0; i < n; ++i) b[i] = vp_nondet_u8(); }
+static inline void vp_fill(void* p, unsigned long n) { vp_fill_n(p, n); }
 
 // checking allocator: forwards to the ledger in the runtime model
 template <class T, bool POCMA = false, bool POCCA = false, bool POCS = true>
